@@ -6,7 +6,7 @@ import Std.Data.HashSet
 Stateful line-protocol driver for the profile-registry model (C14). See `tools/harness/c14.py`.
 
   init                       registry := Profiles() built from the generated tables          -> OK | ERR <exc>
-  initcheck                  hypotheses of C14.init_inv on the generated tables             -> OK | FAIL
+  initcheck                  hypotheses of C14.init_contents on the generated tables        -> OK | FAIL
   add <name> <props> <macros>                                                               -> OK | ERR <exc>
   addps <name> <props> <macros> ...                                                         -> OK | ERR <exc>
   rm <name> | rmnone | rmall                                                                -> OK | ERR <exc>
@@ -135,16 +135,10 @@ def stepLine (st : St) (line : String) : St × String :=
       let r := init theCfg CssVerif.Gen.C14.builtins
       ({ st with reg := r.1 }, reply r)
   | ["initcheck"] =>
-      -- the hypotheses of `C14.init_inv` for the generated tables: names differ, every definition expands under
-      -- the joint environment (`bulkEnv` is restated here: base updated with each truthy macro dict in order)
+      -- the hypotheses of `C14.init_contents` for the generated tables: the names differ, construction succeeds
       let l := CssVerif.Gen.C14.builtins
-      let env := l.foldl (fun m d => dupdate m (if truthy d.macros then d.macros.getD [] else [])) theCfg.base
-      let names := l.map (·.name)
-      let nodup := names.eraseDups.length == names.length
-      let ok := l.all fun d => match expandDict theCfg.fuel env d.props with
-        | .ok _ => true
-        | .error _ => false
-      (st, if nodup && ok then "OK" else "FAIL")
+      let ok := decide ((l.map (·.name)).Nodup) && (init theCfg l).2.isNone
+      (st, if ok then "OK" else "FAIL")
   | ["add", n, p, m] => match decCps n, decProps p, decMacros m with
       | some n, some p, some m =>
           let r := addProfile theCfg st.reg n p m
@@ -163,7 +157,7 @@ def stepLine (st : St) (line : String) : St × String :=
   | ["rmnone"] =>
       let r := removeProfile theCfg st.reg none
       ({ st with reg := r.1 }, reply r)
-  | ["rmall"] => ({ st with reg := removeAll st.reg }, "OK")
+  | ["rmall"] => ({ st with reg := removeAll theCfg st.reg }, "OK")
   | ["def", d] => match decNames d with
       | some d => ({ st with reg := setDefault st.reg d }, "OK")
       | none => (st, "bad-op")
